@@ -477,23 +477,33 @@ def ctxEnter (env : Env) (eng : Option String) (conn : Option Nat) (dialect : Op
   | (st, some x) =>
     if ctxIR.preInTry then ((runCalls env none none none ctxIR.fin st).1, some x) else (st, some x)
 
-inductive ExitKind | normal | exn
+/-- how the block is left: normally, by an exception that is an `Exception`, or by a `BaseException` that is not
+    (KeyboardInterrupt, SystemExit, pytest's Skipped/Failed) -/
+inductive ExitKind | normal | exn | base
   deriving DecidableEq, Repr, Inhabited
 
-/-- the generator is resumed (`normal`) or the block's exception is thrown into it (`exn`) -/
+/-- the calls of the try statement's body / handler / else that run for an exit kind (before `finally`) -/
+def exitSegment (ir : CtxIR) : ExitKind → List CtxCall
+  | .normal => ir.post ++ ir.els
+  | .exn => if ir.hasExc then ir.onExc else ir.onBase
+  | .base => ir.onBase
+
+/-- the generator is resumed (`normal`) or the block's exception is thrown into it -/
 def ctxExit (env : Env) (k : ExitKind) (st : State) : State × Option Exc :=
   match st.ctx with
   | 0 => (st, none)
   | n + 1 =>
     let st := { st with ctx := n }
-    match k with
-    | .normal =>
-      let (st, r1) := runCalls env none none none ctxIR.post st
-      let (st, r2) := runCalls env none none none ctxIR.fin st
-      (st, match r1 with | some x => some x | none => r2)
-    | .exn =>
-      let (st, r2) := runCalls env none none none ctxIR.fin st
-      (st, match r2 with | some x => some x | none => some .runtimeError)
+    let (st, r1) := runCalls env none none none (exitSegment ctxIR k) st
+    let (st, r2) := runCalls env none none none ctxIR.fin st
+    (st, match r2 with
+         | some x => some x
+         | none => match r1 with
+           | some x => some x
+           | none => match k with
+             | .normal => none
+             | .exn => some .runtimeError
+             | .base => some .baseException)
 
 /-! ### SparkSession.builder.getOrCreate() -/
 
